@@ -217,6 +217,10 @@ class NumpyModel:
             out = self.apply_imgcorr(interp, o, l, r, node, out)
         if l.taint or r.taint:
             out = out.w(taint=(l.taint or frozenset()) | (r.taint or frozenset()))
+        if l.role is not None and has_const(r):
+            out = out.w(role=l.role)
+        elif r.role is not None and has_const(l):
+            out = out.w(role=r.role)
         if (l.rollwrap and has_const(r)) or (r.rollwrap and has_const(l)):
             out = out.w(rollwrap=l.rollwrap or r.rollwrap)
         return out
@@ -695,7 +699,7 @@ class NumpyModel:
             # a[[i, j], [k, l]] pairs the index lists element by element (a[i, k], a[j, l]); it is not the block a[i..j, k..l]
             out = out.w(zipped_fancy=True)
         if fancy:
-            out = out.w(store='fresh', fresh=True)
+            out = out.w(store='fresh', fresh=True, prov=None)
         else:
             out = out.w(view_of=base.store)
         # a scalar element
